@@ -321,16 +321,19 @@ def _give_history(p, kind):
     try:
         import emdfile, h5py
         with quiet():
+            import pathlib
             if kind == 1:
                 emdfile.save(p, emdfile.Root(name="history_of_this_path"))
                 emdfile.read(p)
+                emdfile.read(pathlib.Path(p))          # ... under both spellings of the path (str and pathlib.Path)
             else:
                 with h5py.File(p, "w") as f:
                     f.create_group("not_emd").attrs["x"] = 1
-                try:
-                    emdfile.read(p)
-                except Exception:
-                    pass
+                for spelling in (p, pathlib.Path(p)):
+                    try:
+                        emdfile.read(spelling)
+                    except Exception:
+                        pass
                 try:
                     emdfile.save(p, emdfile.Root(name="r"), mode="a")
                 except Exception:
